@@ -26,7 +26,7 @@ try:
     if r.returncode != 0:
         alt = '/verif/seeded_rebased/%s-m%s.diff' % (pid, k)   # hand-rebased onto the fixed tree
         if os.path.exists(alt):
-            sh('git -C %s checkout -- .' % wt)
+            sh('git -C %s reset --hard -q' % wt)
             patch = alt
             r = sh('git -C %s apply %s' % (wt, patch))
     if r.returncode != 0:
